@@ -393,6 +393,10 @@ func checkC17(c *Ctx, r *Report) {
 		}
 	}
 
+	// ---- the parser side of "schema key paths <=> parser key paths": the
+	// decode is strict at every level (shared with C16-O7)
+	checkO7(c, r)
+
 	// ---- S3 ----
 	checkEnums(c, r, fields)
 
